@@ -1066,3 +1066,14 @@ V("C12", "build-drops-factors", "fire", "C12.R9", "Workspace.build no longer wri
   (WSP, "for key in ('auxdata', 'sigmas', 'factors')", "for key in ('auxdata', 'sigmas')"))
 V("C01", "normsys-second-channel-rebroadcast", "fire", "C01.R11", "normsys builder repeats the first channel's factors for a sample that carries the modifier in a second channel",
   ("src/pyhf/modifiers/normsys.py", "        self.builder_data[key][sample]['data']['hi'] += moddata['hi']", "        self.builder_data[key][sample]['data']['hi'] += (self.builder_data[key][sample]['data']['hi'][:1] * len(nom) if thismod and any(self.builder_data[key][sample]['data']['mask'][: -len(nom)]) else moddata['hi'])"))
+
+UTL = "src/pyhf/utils.py"
+V("C19", "mount-half-resolved", "fire", "C19.R9", "the mount half of -v host:mount is made absolute",
+  (UTL, "            self.coerce_path_result(path_mount),", "            self.coerce_path_result(__import__('os').path.abspath(path_mount)),"))
+V("C19", "mount-split-maxsplit", "silent", "", "equivalent split of a two-part value (partition keeps the refusal of a missing colon)",
+  (UTL, "            path_host, path_mount = value.split(':')", "            parts = value.split(':')\n            path_host, path_mount = parts"))
+MIXO = "src/pyhf/optimize/mixins.py"
+V("C05", "postprocess-rounds-point", "fire", "C05.R5", "the stitched best-fit point is clipped after the minimisation",
+  (MIXO, "        fitted_pars = stitch_pars(tensorlib.astensor(fitresult.x))\n", "        fitted_pars = tensorlib.clip(stitch_pars(tensorlib.astensor(fitresult.x)), -10.0, 10.0)\n"))
+V("C05", "scipy-constraint-summed", "fire", "C05.R3", "the equality constraint pins only the SUM of the fixed parameters",
+  ("src/pyhf/optimize/opt_scipy.py", "constraints = [{'type': 'eq', 'fun': lambda v: v[indices] - values}]", "constraints = [{'type': 'eq', 'fun': lambda v: sum(v[indices] - values)}]"))
